@@ -37,6 +37,7 @@ def run(chk: Check) -> None:
     c05.run(chk, only_numeric=True)
     run_shift_guards(chk, ix)
     run_literal_conversion(chk, ix)
+    run_floor_of_inexact_quotient(chk, ix)
 
     r1 = chk.rule("R15.1", "every emission of a raw C division/modulo IntOp is guarded against a zero divisor (and -1 for signed operands)", floor=4)
     llb = ix.cls("mypyc.irbuild.ll_builder.LowLevelIRBuilder")
@@ -357,3 +358,21 @@ def run_literal_conversion(chk: Check, ix) -> None:
         r9.violation(key, f.loc(masks[0]), f"`{norm(masks[0])}` wraps an out-of-range literal instead of rejecting it; used by {[c.split('.')[-1] for c in callers]}")
     if n == 0:
         r9.ok("no compile-time masking of literal conversion arguments", mod.relpath)
+
+
+def run_floor_of_inexact_quotient(chk: Check, ix) -> None:
+    """R15.10: a quotient that is integral only up to rounding error is snapped to the nearest integer, not floored."""
+    from ..cfront import lib_rt_functions
+    r = chk.rule("R15.10", "lib-rt (clang AST): where a C function applies floor() to a local that was computed by a floating-point division (float `//`: div = (vx - fmod(vx, wx)) / wx is an exact multiple of wx mathematically but may land one ulp below the integer), the function also corrects the floored value upwards when the difference exceeds 0.5 (CPython's float_divmod: `snap quotient to nearest integral value`); a bare floor() makes `x // y` one less than CPython's result for such operands (-6.0 // -1.9, 2.1 // 0.7)", floor=1)
+    funcs, _ = lib_rt_functions(ix.root)
+    n = 0
+    for name, e in sorted(funcs.items()):
+        for s in e.get("floor_of_quotient") or []:
+            n += 1
+            key = f"{name}: floor({s['var']}) of a computed quotient is snapped to the nearest integer"
+            if s["snapped"]:
+                r.ok(key, f"mypyc/lib-rt:{name}")
+            else:
+                r.violation(key, f"mypyc/lib-rt:{name}", f"`{s['var']}` comes out of a floating division and is only approximately integral; the function floors it and never compares `{s['var']} - floor({s['var']})` with 0.5: when the division lands one ulp below an integer the result is 1.0 too small")
+    if n < 1:
+        raise AnalysisError("no floor() of a computed quotient found in lib-rt (float_ops.c _float_div_mod had one)")
